@@ -143,7 +143,7 @@ pub proof fn lemma_boxes_push(tr: Seq<Gen>, g: Gen, from: int, pre: Seq<Bounding
 }
 pub proof fn lemma_no_limit_push(tr: Seq<Gen>, g: Gen, from: int)
     requires no_limit_err(tr, from),
-        !(g.outcome is LimitErr),     // a limit error must end the retry loop, it is never queued  @C17.limit.final
+        !(g.outcome is LimitErr),     // a limit error must end the retry loop: queued, it is retried at every nesting level (exponential time)  @C17.limit.final @C01.retry.limit_final
     ensures no_limit_err(tr.push(g), from)
 {
     assert forall|k: int| from <= k < tr.push(g).len() implies !((#[trigger] tr.push(g)[k]).outcome is LimitErr) by {
